@@ -41,7 +41,7 @@ theorem valid_iff (l : Leaf) (v : Arr) : l.valid v = true ↔
   · simp only [Bool.and_eq_true, decide_eq_true_eq, beq_iff_eq, zipWith_all_getElem, and_assoc]
     simp
 
-theorem lower_length_of_WF (l : Leaf) (h : l.WF = true) (lo : List Rat) (hlo : l.lower = some lo) :
+theorem lower_length_of_WF0 (l : Leaf) (h : l.WF0 = true) (lo : List Rat) (hlo : l.lower = some lo) :
     lo.length = prod l.shape := by
   cases l with
   | array => simp [lower] at hlo
@@ -49,24 +49,24 @@ theorem lower_length_of_WF (l : Leaf) (h : l.WF = true) (lo : List Rat) (hlo : l
   | discrete k d n => simp [lower] at hlo; subst hlo; simp [shape, prod]
   | multiDiscrete s nv d n =>
     simp [lower] at hlo; subst hlo
-    simp [WF] at h
+    simp [WF0] at h
     simp [shape, h.1.1]
 
-theorem generate_valid (l : Leaf) (h : l.WF = true) : l.valid l.generate = true := by
+theorem generate_valid0 (l : Leaf) (h : l.WF0 = true) : l.valid l.generate = true := by
   rw [valid_iff]
   cases hl : l.lower with
   | none =>
     have hu : l.upper = none := by
-      cases l <;> simp_all [lower, upper, WF]
+      cases l <;> simp_all [lower, upper, WF0]
     simp [generate, hl, hu]
   | some lo =>
-    have hlen := lower_length_of_WF l h lo hl
+    have hlen := lower_length_of_WF0 l h lo hl
     simp only [generate, hl, true_and, hlen]
     right
     cases l with
     | array => simp [lower] at hl
     | bounded s d n ms m xs x =>
-      simp only [WF, Bool.and_eq_true] at h
+      simp only [WF0, Bool.and_eq_true] at h
       obtain ⟨_, hle⟩ := h
       rw [hl] at hle
       cases hu : (bounded s d n ms m xs x).upper with
@@ -80,7 +80,7 @@ theorem generate_valid (l : Leaf) (h : l.WF = true) : l.valid l.generate = true 
         exact ⟨by grind, hle k (by omega) (by omega)⟩
     | discrete k d n =>
       simp [lower] at hl; subst hl
-      simp [WF] at h
+      simp [WF0] at h
       refine ⟨[0], [(((k:Int) - 1 : Int) : Rat)], rfl, by simp [upper], ?_⟩
       intro j h1 h2
       have hj : j = 0 := by simp at h2; omega
@@ -91,7 +91,7 @@ theorem generate_valid (l : Leaf) (h : l.WF = true) : l.valid l.generate = true 
       exact_mod_cast this
     | multiDiscrete s nv d n =>
       simp [lower] at hl; subst hl
-      simp [WF] at h
+      simp [WF0] at h
       refine ⟨nv.map (fun _ => (0 : Rat)), nv.map (fun (n : Nat) => ((((n : Int) - 1 : Int)) : Rat)), rfl, by simp [upper], ?_⟩
       intro j h1 h2
       simp at h1 h2
@@ -100,6 +100,53 @@ theorem generate_valid (l : Leaf) (h : l.WF = true) : l.valid l.generate = true 
       have : (0:Int) ≤ (nv[j]:Int) - 1 := by omega
       refine ⟨by grind, ?_⟩
       exact_mod_cast this
+
+theorem WF0_of_WF {l : Leaf} (h : l.WF = true) : l.WF0 = true := by
+  simp only [WF, Bool.and_eq_true] at h; exact h.1
+theorem fitsDType_of_WF {l : Leaf} (h : l.WF = true) : l.fitsDType = true := by
+  simp only [WF, Bool.and_eq_true] at h; exact h.2
+
+theorem lower_length_of_WF (l : Leaf) (h : l.WF = true) (lo : List Rat) (hlo : l.lower = some lo) :
+    lo.length = prod l.shape := lower_length_of_WF0 l (WF0_of_WF h) lo hlo
+
+theorem upper_length_of_WF0 (l : Leaf) (h : l.WF0 = true) (hi : List Rat) (hhi : l.upper = some hi) :
+    hi.length = prod l.shape := by
+  cases l with
+  | array => simp [upper] at hhi
+  | bounded s d n ms m xs x => simp [upper] at hhi; simpa [shape] using broadcastTo_length hhi
+  | discrete k d n => simp [upper] at hhi; subst hhi; simp [shape, prod]
+  | multiDiscrete s nv d n =>
+    simp [upper] at hhi; subst hhi
+    simp [WF0] at h
+    simp [shape, h.1.1]
+
+theorem generate_valid (l : Leaf) (h : l.WF = true) : l.valid l.generate = true := generate_valid0 l (WF0_of_WF h)
+
+/-- `validate` of a well-formed spec: shape, dtype, and EVERY element of the value is compared with its own pair of
+bounds (no element escapes the check: both broadcast bounds have exactly as many elements as the value) -/
+theorem valid_iff_WF (l : Leaf) (hw : l.WF = true) (v : Arr) : l.valid v = true ↔
+    v.shape = l.shape ∧ v.dtype = l.dtype ∧ v.data.length = prod l.shape ∧
+    ((l.lower = none ∧ l.upper = none) ∨
+     ∃ lo hi, l.lower = some lo ∧ l.upper = some hi ∧ lo.length = prod l.shape ∧ hi.length = prod l.shape ∧
+       ∀ k (hv : k < v.data.length) (h1 : k < lo.length) (h2 : k < hi.length), lo[k] ≤ v.data[k] ∧ v.data[k] ≤ hi[k]) := by
+  rw [valid_iff]
+  constructor
+  · rintro ⟨hs, hd, hl, hb⟩
+    refine ⟨hs, hd, hl, ?_⟩
+    rcases hb with hb | ⟨lo, hi, e1, e2, hk⟩
+    · exact Or.inl hb
+    · refine Or.inr ⟨lo, hi, e1, e2, lower_length_of_WF0 l (WF0_of_WF hw) lo e1, upper_length_of_WF0 l (WF0_of_WF hw) hi e2, ?_⟩
+      intro k hv h1 h2
+      have := hk k hv (by simp; omega)
+      simpa [List.getElem_zip] using this
+  · rintro ⟨hs, hd, hl, hb⟩
+    refine ⟨hs, hd, hl, ?_⟩
+    rcases hb with hb | ⟨lo, hi, e1, e2, l1, l2, hk⟩
+    · exact Or.inl hb
+    · refine Or.inr ⟨lo, hi, e1, e2, ?_⟩
+      intro k hv hz
+      simp at hz
+      simpa [List.getElem_zip] using hk k hv (by omega) (by omega)
 
 theorem beq_refl (l : Leaf) : l.beq l = true := by cases l <;> simp [beq]
 
@@ -183,7 +230,7 @@ theorem Nested.beq_symm (a b : Nested) : a.beq b = b.beq a := by
   constructor <;> (rintro ⟨h1, h2⟩; exact ⟨h1.symm, fun k ha hb => by rw [Leaf.beq_symm]; exact h2 k hb ha⟩)
 
 /-- every value valid for a (well-formed) spec belongs to the gym space converted from it -/
-theorem toGym_member (l : Leaf) (hw : l.WF = true) (v : Arr) (h : l.valid v = true) :
+theorem toGym_member0 (l : Leaf) (hw : l.WF0 = true) (v : Arr) (h : l.valid v = true) :
     (toGym l).contains v = true := by
   rw [Leaf.valid_iff] at h
   obtain ⟨hs, hd, hlen, hb⟩ := h
@@ -193,7 +240,7 @@ theorem toGym_member (l : Leaf) (hw : l.WF = true) (v : Arr) (h : l.valid v = tr
     exact ⟨hs, hd⟩
   | bounded s d n ms m xs x =>
     rcases hb with ⟨h1, _⟩ | ⟨lo, hi, h1, h2, hk⟩
-    · simp only [Leaf.WF, Bool.and_eq_true] at hw
+    · simp only [Leaf.WF0, Bool.and_eq_true] at hw
       rw [h1] at hw; simp at hw
     · simp only [toGym, Gym.contains, h1, h2, Bool.and_eq_true, decide_eq_true_eq, zipWith_all_getElem]
       have l1 := broadcastTo_length (by simpa [Leaf.lower] using h1)
@@ -212,7 +259,7 @@ theorem toGym_member (l : Leaf) (hw : l.WF = true) (v : Arr) (h : l.valid v = tr
     rcases hb with ⟨h1, _⟩ | ⟨lo, hi, h1, h2, hk⟩
     · simp [Leaf.lower] at h1
     · simp [Leaf.lower] at h1; simp [Leaf.upper] at h2; subst h1; subst h2
-      simp [Leaf.WF] at hw
+      simp [Leaf.WF0] at hw
       simp [Leaf.shape, prod] at hlen hs
       simp [Leaf.dtype] at hd
       match hv : v.data, hlen with
@@ -228,7 +275,7 @@ theorem toGym_member (l : Leaf) (hw : l.WF = true) (v : Arr) (h : l.valid v = tr
     rcases hb with ⟨h1, _⟩ | ⟨lo, hi, h1, h2, hk⟩
     · simp [Leaf.lower] at h1
     · simp [Leaf.lower] at h1; simp [Leaf.upper] at h2; subst h1; subst h2
-      simp [Leaf.WF] at hw
+      simp [Leaf.WF0] at hw
       simp [Leaf.shape] at hlen hs
       simp [Leaf.dtype] at hd
       simp only [toGym, Gym.contains, Bool.and_eq_true, decide_eq_true_eq, zipWith_all_getElem, hd, hw.2, hs,
@@ -241,5 +288,323 @@ theorem toGym_member (l : Leaf) (hw : l.WF = true) (v : Arr) (h : l.valid v = tr
       have e : (((nv[j]:Int) - 1 : Int) : Rat) = (nv[j] : Rat) - 1 := by
         simp [Rat.intCast_sub, Rat.intCast_natCast]
       grind
+
+theorem toGym_member (l : Leaf) (hw : l.WF = true) (v : Arr) (h : l.valid v = true) :
+    (toGym l).contains v = true := toGym_member0 l (Leaf.WF0_of_WF hw) v h
+
+end Sp
+
+namespace Sp
+
+theorem DType.wrap_of_fits (d : DType) (x : Int) (hd : d.isInt = true) (hf : d.fits (x : Rat) = true) :
+    d.wrap x = x := by
+  cases d <;> simp [DType.fits, DType.intRange, DType.wrap, DType.isInt] at * <;>
+    (obtain ⟨h1, h2⟩ := hf; have := of_decide_eq_true h1; have := of_decide_eq_true h2; omega)
+
+theorem DType.fits_zero (d : DType) : d.fits 0 = true := by cases d <;> decide
+
+namespace Leaf
+
+theorem ctorAccepts_of_WF (l : Leaf) (h : l.WF = true) : l.ctorAccepts = true := by
+  cases l with
+  | array => exact h
+  | bounded => exact h
+  | discrete n d nm =>
+    have h0 := WF0_of_WF h
+    have hf := fitsDType_of_WF h
+    simp only [WF0, Bool.and_eq_true, decide_eq_true_eq] at h0
+    simp only [ctorAccepts, storedMax, Bool.and_eq_true, decide_eq_true_eq]
+    refine ⟨⟨by simpa using h0.1, h0.2⟩, ?_⟩
+    have := DType.wrap_of_fits d _ h0.2 hf
+    have hpos : n > 0 := by simpa using h0.1
+    exact decide_eq_true (by omega)
+  | multiDiscrete s nv d nm =>
+    have h0 := WF0_of_WF h
+    have hf := fitsDType_of_WF h
+    simp only [WF0, Bool.and_eq_true] at h0
+    simp only [ctorAccepts, Bool.and_eq_true]
+    refine ⟨⟨⟨h0.1.1, h0.1.2⟩, h0.2⟩, ?_⟩
+    simp only [fitsDType, List.all_eq_true] at hf ⊢
+    intro n hn
+    have hpos : n > 0 := by simpa using (List.all_eq_true.1 h0.1.2) n hn
+    simp only [storedMax, decide_eq_true_eq]
+    have := DType.wrap_of_fits d _ h0.2 (hf n hn)
+    exact decide_eq_true (by omega)
+
+/-- for a well-formed discrete spec the stored bound is `num_values − 1`: the reported count and the validated
+bound agree -/
+theorem storedMax_of_WF (n : Nat) (d : DType) (nm : String) (h : (discrete n d nm).WF = true) :
+    storedMax d n = (n : Int) - 1 := by
+  have h0 := WF0_of_WF h
+  simp only [WF0, Bool.and_eq_true] at h0
+  exact DType.wrap_of_fits d _ h0.2 (fitsDType_of_WF h)
+
+/-- the real constructor accepts counts the dtype cannot hold, and then `num_values` (300) disagrees with the
+bound it validates against (43); `DiscreteArray(200, int8)` on the other hand raises -/
+theorem ctor_wrap_witness :
+    (discrete 300 .int8 "").ctorAccepts = true ∧ (discrete 300 .int8 "").WF = false ∧
+    storedMax .int8 300 = 43 ∧ (discrete 200 .int8 "").ctorAccepts = false ∧
+    (multiDiscrete [2] [300, 5] .int8 "").ctorAccepts = true ∧ (multiDiscrete [2] [300, 5] .int8 "").WF = false := by
+  decide +kernel
+
+/-- the generated value consists of values of the dtype -/
+theorem generate_fits (l : Leaf) (h : l.WF = true) : l.generate.data.all l.dtype.fits = true := by
+  have hf := fitsDType_of_WF h
+  cases l with
+  | array s d n =>
+    simp only [generate, lower, List.all_eq_true, List.mem_replicate]
+    rintro x ⟨_, rfl⟩
+    exact DType.fits_zero _
+  | bounded s d n ms m xs x =>
+    have h0 := WF0_of_WF h
+    simp only [WF0, Bool.and_eq_true] at h0
+    cases hl : (bounded s d n ms m xs x).lower with
+    | none => rw [hl] at h0; simp at h0
+    | some lo =>
+      simp only [generate, hl, dtype]
+      simp only [lower, broadcastTo] at hl
+      split at hl
+      · injection hl with hl; subst hl
+        simp only [fitsDType, Bool.and_eq_true, List.all_eq_true] at hf
+        simp only [List.all_eq_true, List.mem_map, List.mem_range]
+        rintro y ⟨k, _, rfl⟩
+        rw [List.getD_eq_getElem?_getD]
+        cases hg : m[ravel ms (srcIndex ms s (unravel s k))]? with
+        | none => simp; exact DType.fits_zero _
+        | some z => simp; exact hf.1 z (List.mem_of_getElem? hg)
+      · simp at hl
+  | discrete k d n =>
+    simp only [generate, lower, dtype, List.all_cons, List.all_nil, Bool.and_true]
+    exact DType.fits_zero _
+  | multiDiscrete s nv d n =>
+    simp only [generate, lower, dtype, List.all_eq_true, List.mem_map]
+    rintro y ⟨_, _, rfl⟩
+    exact DType.fits_zero _
+
+end Leaf
+end Sp
+
+namespace Sp
+namespace Leaf
+
+/-! ### cross-kind `==` -/
+
+theorem pyEq_same_kind (a b : Leaf) (h : a.kind = b.kind) : a.pyEq b = a.beq b := by
+  cases a <;> cases b <;> simp [kind] at h <;>
+    simp [pyEq, kind, beq, arrayEq, boundedEq, shape, dtype, name, lower, upper, Bool.and_assoc]
+
+theorem pyEq_refl (a : Leaf) : a.pyEq a = true := by
+  rw [pyEq_same_kind a a rfl]; exact beq_refl a
+
+theorem arrayEq_symm (a b : Leaf) : arrayEq a b = arrayEq b a := by
+  rw [Bool.eq_iff_iff]; simp only [arrayEq, Bool.and_eq_true, beq_iff_eq]; grind
+theorem boundedEq_symm (a b : Leaf) : boundedEq a b = boundedEq b a := by
+  rw [Bool.eq_iff_iff]; simp only [boundedEq, Bool.and_eq_true, beq_iff_eq]; grind
+
+theorem pyEq_symm (a b : Leaf) : a.pyEq b = b.pyEq a := by
+  cases a <;> cases b <;> simp only [pyEq, kind] <;>
+    first | exact arrayEq_symm _ _ | exact boundedEq_symm _ _ | exact beq_symm _ _ | rfl
+
+/-- against a plain `Array` only shape, dtype and name are compared: bounds and `num_values` are ignored -/
+theorem pyEq_array (s : List Nat) (d : DType) (n : String) (b : Leaf) :
+    (array s d n).pyEq b = (s == b.shape && d == b.dtype && n == b.name) ∧
+    b.pyEq (array s d n) = (s == b.shape && d == b.dtype && n == b.name) := by
+  rw [pyEq_symm b]
+  cases b <;> exact ⟨rfl, rfl⟩
+
+/-- across kinds `==` is NOT transitive: `DiscreteArray(3) == Array((), int32) == DiscreteArray(4)` but
+`DiscreteArray(3) != DiscreteArray(4)`; and a `DiscreteArray` equals the `BoundedArray` with its bounds.  The
+equivalence-relation theorems are therefore stated per kind (`beq`), as the property says. -/
+theorem pyEq_cross_kind_witness :
+    (discrete 3 .int32 "").pyEq (array [] .int32 "") = true ∧ (array [] .int32 "").pyEq (discrete 4 .int32 "") = true ∧
+    (discrete 3 .int32 "").pyEq (discrete 4 .int32 "") = false ∧
+    (discrete 3 .int32 "").pyEq (bounded [] .int32 "" [] [0] [] [2]) = true ∧
+    (multiDiscrete [1] [3] .int32 "").pyEq (bounded [1] .int32 "" [] [0] [] [2]) = true ∧
+    (discrete 3 .int32 "").pyEq (multiDiscrete [] [3] .int32 "") = false := by decide +kernel
+
+/-! ### replace -/
+
+theorem apply1_kind (l : Leaf) (kw : Kw) : (apply1 l kw).kind = l.kind := by
+  cases l <;> cases kw <;> rfl
+
+theorem accepts_of_kind (a b : Leaf) (h : a.kind = b.kind) (kw : Kw) : accepts a kw = accepts b kw := by
+  cases a <;> cases b <;> simp [kind] at h <;> cases kw <;> rfl
+
+theorem apply1_get_other (l : Leaf) (kw : Kw) (attr : Attr) (hne : attr ≠ kw.attr) :
+    (apply1 l kw).get attr = l.get attr := by
+  cases l <;> cases kw <;> cases attr <;> simp_all [apply1, get, Kw.attr]
+
+theorem apply1_get_same (l : Leaf) (kw : Kw) (h : accepts l kw = true) : (apply1 l kw).get kw.attr = kw.val := by
+  cases l <;> cases kw <;> simp_all [apply1, get, Kw.attr, Kw.val, accepts]
+
+theorem foldl_kind (l : Leaf) (kws : List Kw) : (kws.foldl apply1 l).kind = l.kind := by
+  induction kws generalizing l with
+  | nil => rfl
+  | cons kw kws ih => simp only [List.foldl_cons]; rw [ih, apply1_kind]
+
+theorem foldl_get_other (l : Leaf) (kws : List Kw) (attr : Attr) (hn : attr ∉ kws.map Kw.attr) :
+    (kws.foldl apply1 l).get attr = l.get attr := by
+  induction kws generalizing l with
+  | nil => rfl
+  | cons kw kws ih =>
+    simp only [List.map_cons, List.mem_cons, not_or] at hn
+    simp only [List.foldl_cons]
+    rw [ih _ hn.2, apply1_get_other l kw attr hn.1]
+
+theorem foldl_get_named (l : Leaf) (kws : List Kw) (hacc : kws.all (accepts l) = true)
+    (hnd : (kws.map Kw.attr).Nodup) : ∀ kw ∈ kws, (kws.foldl apply1 l).get kw.attr = kw.val := by
+  induction kws generalizing l with
+  | nil => simp
+  | cons k kws ih =>
+    simp only [List.all_cons, Bool.and_eq_true] at hacc
+    simp only [List.map_cons, List.nodup_cons] at hnd
+    intro kw hkw
+    simp only [List.foldl_cons]
+    rcases List.mem_cons.1 hkw with rfl | hkw
+    · rw [foldl_get_other _ kws _ hnd.1, apply1_get_same l kw hacc.1]
+    · refine ih (apply1 l k) ?_ hnd.2 kw hkw
+      rw [List.all_eq_true] at hacc ⊢
+      intro x hx
+      rw [accepts_of_kind _ l (apply1_kind l k)]
+      exact hacc.2 x hx
+
+/-- `replace(**kwargs)` changes ONLY the named constructor parameters: every other parameter of the class keeps
+its value (any keyword list, every attribute) … -/
+theorem replace_only_named (l l' : Leaf) (kws : List Kw) (h : l.replace kws = some l') :
+    ∀ attr, attr ∉ kws.map Kw.attr → l'.get attr = l.get attr := by
+  unfold replace at h
+  split at h
+  · injection h with h; subst h
+    intro attr hn
+    exact foldl_get_other l kws attr hn
+  · simp at h
+
+/-- … every named parameter gets exactly the given value (Python keyword arguments are distinct), the class is
+unchanged and the result passed the constructor's checks -/
+theorem replace_sets_named (l l' : Leaf) (kws : List Kw) (hnd : (kws.map Kw.attr).Nodup)
+    (h : l.replace kws = some l') :
+    (∀ kw ∈ kws, l'.get kw.attr = kw.val) ∧ l'.kind = l.kind ∧ l'.WF = true := by
+  unfold replace at h
+  split at h
+  · rename_i hc
+    injection h with h; subst h
+    simp only [Bool.and_eq_true] at hc
+    exact ⟨foldl_get_named l kws hc.1 hnd, foldl_kind l kws, hc.2⟩
+  · simp at h
+
+/-- a keyword that is not a constructor parameter of the class is refused (`TypeError`) -/
+theorem replace_unknown_kw (l : Leaf) (kws : List Kw) (kw : Kw) (hk : kw ∈ kws) (hna : accepts l kw = false) :
+    l.replace kws = none := by
+  unfold replace
+  rw [if_neg]
+  intro hc
+  simp only [Bool.and_eq_true, List.all_eq_true] at hc
+  have := hc.1 kw hk
+  rw [hna] at this; exact absurd this (by simp)
+
+/-- the attributes determine the spec: two specs of the same class with the same constructor parameters are the same -/
+theorem eq_of_get (a b : Leaf) (hk : a.kind = b.kind) (h : ∀ attr, a.get attr = b.get attr) : a = b := by
+  cases a <;> cases b <;> simp [kind] at hk
+  all_goals
+    have h1 := h .shape; have h2 := h .dtype; have h3 := h .name
+    have h4 := h .minimum; have h5 := h .maximum; have h6 := h .numValues
+    simp_all [get]
+
+/-! ### pickling -/
+
+/-- pickling round-trips: `cls(*args)` applied to what `__reduce__` returns rebuilds the very same spec (for every
+well-formed spec; the constructor is re-run and accepts) -/
+theorem unreduce_eq (l : Leaf) (h : l.WF = true) : l.unreduce = some l := by
+  cases l <;> simp [unreduce, reduce, construct, h]
+
+theorem pickle_roundtrip (l : Leaf) (h : l.WF = true) : ∃ l', l.unreduce = some l' ∧ l'.beq l = true ∧ l'.WF = true :=
+  ⟨l, unreduce_eq l h, beq_refl l, h⟩
+
+/-- the arguments are positional: what `construct` rebuilds from a well-formed argument list reduces to that list -/
+theorem reduce_construct (k : Kind) (args : List AttrVal) (l : Leaf) (h : construct k args = some l) :
+    l.reduce = (k, args) ∧ l.WF = true := by
+  unfold construct at h
+  split at h <;> first | (split at h <;> first | (injection h with h; subst h; exact ⟨rfl, by assumption⟩) | simp at h) | simp at h
+
+end Leaf
+
+/-! ### nested replace -/
+
+theorem dictSet_lookup_same {β} (cs : List (String × β)) (k : String) (v : β) : (dictSet cs (k, v)).lookup k = some v := by
+  induction cs with
+  | nil => simp [dictSet, List.lookup]
+  | cons c cs ih =>
+    obtain ⟨k', v'⟩ := c
+    simp only [dictSet]
+    split
+    · rename_i h; subst h; simp [List.lookup]
+    · rename_i h
+      have : (k == k') = false := by simpa using fun e => h e.symm
+      simp only [List.lookup, this]; exact ih
+
+theorem dictSet_lookup_other {β} (cs : List (String × β)) (kv : String × β) (k : String) (hne : k ≠ kv.1) :
+    (dictSet cs kv).lookup k = cs.lookup k := by
+  induction cs with
+  | nil =>
+    have : (k == kv.1) = false := by simpa using hne
+    simp [dictSet, List.lookup, this]
+  | cons c cs ih =>
+    obtain ⟨k', v'⟩ := c
+    simp only [dictSet]
+    split
+    · rename_i h
+      have : (k == k') = false := by rw [h]; simpa using hne
+      simp [List.lookup, this]
+    · simp only [List.lookup]; rw [ih]
+
+/-- keys after an update: the old keys in their order, a new key appended -/
+theorem dictSet_keys {β} (cs : List (String × β)) (kv : String × β) :
+    (dictSet cs kv).map (·.1) = if kv.1 ∈ cs.map (·.1) then cs.map (·.1) else cs.map (·.1) ++ [kv.1] := by
+  induction cs with
+  | nil => simp [dictSet]
+  | cons c cs ih =>
+    obtain ⟨k', v'⟩ := c
+    simp only [dictSet]
+    split
+    · rename_i h; simp [h]
+    · rename_i h
+      simp only [List.map_cons, ih, List.mem_cons]
+      have : ¬ kv.1 = k' := fun e => h e.symm
+      simp only [this, false_or]
+      split <;> simp
+
+theorem Node.replace_nil (n : Node) : n.replace [] = n := by
+  cases n; rfl
+
+theorem foldl_dictSet_lookup_other {β} (cs : List (String × β)) (kws : List (String × β)) (k : String)
+    (hn : k ∉ kws.map (·.1)) : (kws.foldl dictSet cs).lookup k = cs.lookup k := by
+  induction kws generalizing cs with
+  | nil => rfl
+  | cons kv kws ih =>
+    simp only [List.map_cons, List.mem_cons, not_or] at hn
+    simp only [List.foldl_cons]
+    rw [ih _ hn.2, dictSet_lookup_other cs kv k hn.1]
+
+/-- nested `replace` changes only the named children (and keeps the spec's own name) … -/
+theorem Node.replace_only_named (n : Node) (kws : List (String × Nested)) (k : String) (hn : k ∉ kws.map (·.1)) :
+    (n.replace kws).child k = n.child k ∧ (n.replace kws).name = n.name :=
+  ⟨foldl_dictSet_lookup_other n.children kws k hn, rfl⟩
+
+/-- … and every named child is the given spec (keyword arguments are distinct) -/
+theorem Node.replace_named (n : Node) (kws : List (String × Nested)) (hnd : (kws.map (·.1)).Nodup) :
+    ∀ kv ∈ kws, (n.replace kws).child kv.1 = some kv.2 := by
+  unfold Node.replace Node.child
+  simp only []
+  generalize n.children = cs
+  induction kws generalizing cs with
+  | nil => simp
+  | cons kv kws ih =>
+    simp only [List.map_cons, List.nodup_cons] at hnd
+    intro x hx
+    simp only [List.foldl_cons]
+    rcases List.mem_cons.1 hx with rfl | hx
+    · rw [foldl_dictSet_lookup_other _ kws _ hnd.1]
+      exact dictSet_lookup_same cs x.1 x.2
+    · exact ih hnd.2 _ x hx
 
 end Sp
